@@ -479,4 +479,129 @@ theorem ainv_ends_live {n : Nat} {adj : Adj} (hn : 1 ≤ n) (h : AInv n adj) :
   · have := live_of_snd (adj := adj) (i := n - 1) (by rw [h.In]; omega)
     simpa using this
 
+/-! ### `counter` of `visvalingam_preserve` is the number of live vertices -/
+
+def liveCount (n : Nat) (adj : Adj) : Nat := (List.range n).countP (fun i => adj i != (0, 0))
+
+theorem countP_range_flip (p q : Nat → Bool) : ∀ (n c : Nat), c < n → p c = true → q c = false →
+    (∀ j, j < n → j ≠ c → q j = p j) →
+    (List.range n).countP q + 1 = (List.range n).countP p
+  | 0, c, h, _, _, _ => by omega
+  | m + 1, c, h, hp, hq, hag => by
+    rw [List.range_succ, List.countP_append, List.countP_append]
+    by_cases hc : c = m
+    · subst hc
+      have : (List.range c).countP q = (List.range c).countP p := by
+        apply List.countP_congr
+        intro j hj
+        have := List.mem_range.1 hj
+        rw [hag j (by omega) (by omega)]
+      simp [this, hp, hq]
+    · have ih := countP_range_flip p q m c (by omega) hp hq (fun j hj hne => hag j (by omega) hne)
+      have hm := hag m (by omega) (fun e => hc e.symm)
+      simp only [List.countP_singleton, hm]
+      omega
+
+theorem liveCount_unlink {n : Nat} {adj : Adj} {l c r : Nat} (hinv : AInv n adj)
+    (hlc : l < c) (hcr : c < r) (hrn : r < n) (hadj : adj c = ((l : Int), (r : Int))) :
+    liveCount n (unlink adj l c r (adj l).1 (adj r).2) + 1 = liveCount n adj := by
+  obtain ⟨_, b1, b2, b3, b4⟩ := unlink_inv hinv hlc hcr hrn hadj
+  have hcl : adj c ≠ (0, 0) := live_of_snd (by rw [hadj]; simp; omega)
+  have hc1 : (adj c).1 = (l : Int) := by rw [hadj]
+  have hc2 : (adj c).2 = (r : Int) := by rw [hadj]
+  obtain ⟨hll, _⟩ := hinv.DL c l (by omega) hcl hc1
+  obtain ⟨hrl, _⟩ := hinv.DR c r (by omega) hcl hc2 hrn
+  unfold liveCount
+  apply countP_range_flip _ _ n c (by omega)
+  · simpa using hcl
+  · simp [unlink_c]
+  · intro j hj hne
+    show (unlink adj l c r (adj l).1 (adj r).2 j != (0, 0)) = (adj j != (0, 0))
+    by_cases e2 : j = r
+    · rw [e2, unlink_r _ _ _ _ _ _ (by omega)]
+      have h1 : (((l : Int), (adj r).2) != (0, 0)) = true := by
+        simpa using pair_ne_zero_of_snd (a := (l : Int)) (b := (adj r).2) (by omega)
+      have h2 : (adj r != (0, 0)) = true := by simpa using hrl
+      rw [h1, h2]
+    · by_cases e3 : j = l
+      · rw [e3, unlink_l _ _ _ _ _ _ (by omega) (by omega)]
+        have h1 : (((adj l).1, (r : Int)) != (0, 0)) = true := by
+          simpa using pair_ne_zero_of_snd (a := (adj l).1) (b := (r : Int)) (by omega)
+        have h2 : (adj l != (0, 0)) = true := by simpa using hll
+        rw [h1, h2]
+      · rw [unlink_o _ _ _ _ _ _ j hne e2 e3]
+
+theorem keep_length (adj : Adj) : ∀ (l : List Pt) (k : Nat),
+    ((l.zipIdx k).filterMap (fun p => if adj p.2 != (0, 0) then some p.1 else none)).length =
+      (List.range' k l.length).countP (fun i => adj i != (0, 0))
+  | [], k => by simp
+  | x :: t, k => by
+    simp only [List.zipIdx_cons, List.filterMap_cons, List.length_cons, List.range'_succ, List.countP_cons]
+    have ih := keep_length adj t (k + 1)
+    by_cases h : (adj k != (0, 0)) = true
+    · simp only [h, if_true, List.length_cons, ih]
+    · simp only [h, Bool.false_eq_true, if_false]
+      simpa using ih
+
+
+theorem vwpLoop_count (cs : List Pt) (eps : Rat) (n imin mpts : Nat) :
+    ∀ (fuel : Nat) (adj : Adj) (pq : Heap) (counter : Nat) (tree : List Seg) (adj' : Adj) (tree' : List Seg),
+    AInv n adj → AllP (EOK n) pq → counter = liveCount n adj →
+    vwpLoop cs eps n imin mpts fuel adj pq counter tree = some (adj', tree') →
+    min imin counter ≤ liveCount n adj'
+  | 0, adj, pq, counter, tree, adj', tree', hi, _, hcnt, hres => by
+    simp only [vwpLoop, Option.some.injEq, Prod.mk.injEq] at hres
+    rw [← hres.1, ← hcnt]; exact Nat.min_le_right _ _
+  | fuel + 1, adj, pq, counter, tree, adj', tree', hi, hq, hcnt, hres => by
+    simp only [vwpLoop] at hres
+    split at hres
+    · simp only [Option.some.injEq, Prod.mk.injEq] at hres
+      rw [← hres.1, ← hcnt]; exact Nat.min_le_right _ _
+    · rename_i s pq' hpop
+      obtain ⟨hs, hq'⟩ := heapPop_allP hq hpop
+      split at hres
+      · simp only [Option.some.injEq, Prod.mk.injEq] at hres
+        rw [← hres.1, ← hcnt]; exact Nat.min_le_right _ _
+      · split at hres
+        · simp only [Option.some.injEq, Prod.mk.injEq] at hres
+          rw [← hres.1, ← hcnt]; exact Nat.min_le_right _ _
+        · rename_i hcmin
+          generalize hadj : adj s.current = a at hres
+          obtain ⟨left, right⟩ := a
+          simp only at hres
+          split at hres
+          · exact vwpLoop_count cs eps n imin mpts fuel adj pq' counter tree adj' tree' hi hq' hcnt hres
+          · rename_i hne
+            have hl : left = (s.left : Int) := by
+              by_contra hh; exact hne (Or.inl hh)
+            have hr : right = (s.right : Int) := by
+              by_contra hh; exact hne (Or.inr hh)
+            subst hl hr
+            obtain ⟨h1, h2, h3⟩ := hs
+            obtain ⟨hinv', b1, b2, _, _⟩ := unlink_inv hi h1 h2 h3 hadj
+            have hlc := liveCount_unlink hi h1 h2 h3 hadj
+            split at hres
+            · simp only [Option.some.injEq, Prod.mk.injEq] at hres
+              rw [← hres.1, ← hcnt]; exact Nat.min_le_right _ _
+            · split at hres
+              · exact absurd hres (by simp)
+              · split at hres
+                · exact absurd hres (by simp)
+                · have ih := vwpLoop_count cs eps n imin mpts fuel _ _ (counter - 1) _ adj' tree' hinv'
+                    (recompute_allP _ cs pq' _ _ _ _ eps hq' b1 (by omega) b2) (by omega) hres
+                  have : min imin counter = min imin (counter - 1) := by omega
+                  rw [this]; exact ih
+
+
+theorem liveCount_init (n : Nat) : liveCount n adjInit = n := by
+  unfold liveCount
+  have : ∀ i ∈ List.range n, (adjInit i != (0, 0)) = true := by
+    intro i _
+    unfold adjInit
+    split
+    · decide
+    · have : ((i : Int) - 1, (i : Int) + 1) ≠ (0, 0) := pair_ne_zero_of_snd (by omega)
+      simpa using this
+  rw [List.countP_eq_length.2 this, List.length_range]
+
 end Geo.Proofs.C09
